@@ -241,6 +241,86 @@ func TestChecksumSweep(t *testing.T) {
 	ev.Label("sweep:checksums")
 }
 
+// TestShortMessages: for each of the 64 network functions, IPMI messages of
+// every total length 0..13 whose two checksums are valid for that length. The
+// shortest well-formed message is 7 bytes for a request (no data) and 8 for a
+// response (completion code), plus 1 for the group-extension body code and 3
+// for the OEM enterprise number; anything shorter must be rejected, anything at
+// least that long must decode with the fields at their places.
+func TestShortMessages(t *testing.T) {
+	sum := func(b []byte) byte {
+		var c byte
+		for _, x := range b {
+			c += x
+		}
+		return -c
+	}
+	dom := ev.Domain("netfn x length", 64*14)
+	for nf := 0; nf < 64; nf++ {
+		min := 7
+		if nf%2 == 1 {
+			min = 8
+		}
+		switch nf {
+		case 0x2c, 0x2d:
+			min++
+		case 0x2e, 0x2f:
+			min += 3
+		}
+		for l := 0; l <= 13; l++ {
+			b := make([]byte, l)
+			tmpl := []byte{0x81, byte(nf)<<2 | 1, 0, 0x20, 0x2a<<2 | 2, 0x3b, 0xc1, 0xdc, 0xa5, 0x5a, 0x11, 0x22, 0x33}
+			copy(b, tmpl)
+			if l > 2 {
+				b[2] = sum(b[:2])
+			}
+			if l > 3 {
+				b[l-1] = sum(b[3 : l-1])
+			}
+			for _, in := range [][]byte{exact(b), append(append([]byte(nil), b...), 0x00, 0xc9, 0x00, 0x00)[:l]} {
+				var m ipmi.Message
+				var err error
+				func() {
+					defer func() {
+						if r := recover(); r != nil {
+							err = fmt.Errorf("panic: %v", r)
+						}
+					}()
+					err = m.DecodeFromBytes(in, gopacket.NilDecodeFeedback)
+				}()
+				ev.Eval()
+				cs := map[string]any{"netFn": fmt.Sprintf("%#02x", nf), "length": l, "message": fmt.Sprintf("%x", b)}
+				if l < min && err == nil {
+					ev.Violation("TestShortMessages", cs, fmt.Sprintf("a %d-byte message with NetFn %#x decoded without error (completion code %#x, %d payload bytes); the shortest well-formed one is %d bytes", l, nf, uint8(m.CompletionCode), len(m.LayerPayload()), min))
+					t.Fatalf("%v: decoded without error", cs)
+				}
+				if l >= min {
+					if err != nil {
+						ev.Violation("TestShortMessages", cs, "well-formed message rejected: "+err.Error())
+						t.Fatalf("%v: %v", cs, err)
+					}
+					wantCC, off := byte(0), 6
+					if nf%2 == 1 {
+						wantCC, off = b[6], 7
+					}
+					if uint8(m.Function) != byte(nf) || uint8(m.RemoteLUN) != 1 || uint8(m.Sequence) != 0x2a || uint8(m.LocalLUN) != 2 || uint8(m.Command) != 0x3b || uint8(m.CompletionCode) != wantCC || len(m.LayerPayload()) != l-min {
+						ev.Violation("TestShortMessages", cs, fmt.Sprintf("fields differ: %+v (payload %x)", m, m.LayerPayload()))
+						t.Fatalf("%v: fields differ: NetFn %#x cc %#x payload %x", cs, uint8(m.Function), uint8(m.CompletionCode), m.LayerPayload())
+					}
+					if (nf == 0x2c || nf == 0x2d) && uint8(m.Body) != b[off] {
+						t.Fatalf("%v: body code %#x, want %#x", cs, uint8(m.Body), b[off])
+					}
+				}
+			}
+			dom.Visit(nf*14 + l)
+			if l == min-1 {
+				ev.NonTrivial(fmt.Sprintf("short|%d|%d", nf, l))
+			}
+		}
+	}
+	ev.Label("short-messages")
+}
+
 // viewOfPacket lists commands whose response exposes a variable-length byte
 // slice that is a view of the decoded packet by design: the cipher-suite record
 // chunk is documented as such ("references data in the decoded packet"), and Get
@@ -571,6 +651,6 @@ func TestDecodersConcurrently(t *testing.T) {
 func TestCoverage(t *testing.T) {
 	ev.RequireLabels(t, 1, "reject:checksum", "reject:covered-byte", "reject:length-field", "decode:GetSessionInfoRsp/3", "decode:GetSessionInfoRsp/6", "decode:GetSessionInfoRsp/18",
 		"decode:FullSensorRecord/enc0", "decode:FullSensorRecord/enc1", "decode:FullSensorRecord/enc2", "decode:FullSensorRecord/enc3", "decode:RAKPMessage2/status0=true",
-		"decode:DCMICaps/param2/v1.0", "decode:DCMICaps/param2/v1.5", "api:sensor-info:shorter-page-after-longer", "api:value-survives-next-command", "api-reject:mode0", "api-reject:mode1", "api-reject:mode2", "sweep:checksums", "sweep:count-fields", "decode:concurrent-goroutines")
+		"decode:DCMICaps/param2/v1.0", "decode:DCMICaps/param2/v1.5", "api:sensor-info:shorter-page-after-longer", "api:value-survives-next-command", "api-reject:mode0", "api-reject:mode1", "api-reject:mode2", "sweep:checksums", "short-messages", "sweep:count-fields", "decode:concurrent-goroutines")
 	_ = context.Background
 }
